@@ -598,11 +598,40 @@ theorem get_isSome_eq_covers (F : Facts) (hF : F.getOrder = [.exact, .registries
 /-! ## middleware chains -/
 
 theorem nextRun_forwarding {κ ρ} (h : Handler κ ρ) (ctx : Option κ) (mws : List (Mw κ ρ))
-    (hf : ∀ m ∈ mws, Forwarding m) (req : Msg) : nextRun h ctx mws req = nextRun h ctx [] req := by
+    (hf : ∀ m ∈ mws, Forwarding m) (req : Msg) : nextRun true h ctx mws req = nextRun true h ctx [] req := by
   induction mws with
   | nil => rfl
   | cons m rest ih =>
-    rw [nextRun, hf m (by simp) ctx req, ih (fun x hx => hf x (by simp [hx]))]
+    rw [nextRun, hf m (by simp) ctx req]
+    exact ih (fun x hx => hf x (by simp [hx]))
+
+/-- A chain of `n` spies, for every `n`: each link is shown the caller's context, and the leaf is
+entered with it. -/
+theorem nextRun_spies {κ ρ} (h : Handler κ (List (Option κ) × ρ)) (ctx : Option κ) (n : Nat) (req : Msg) :
+    nextRun true h ctx (List.replicate n spyMw) req =
+      (List.replicate n ctx ++ (nextRun true h ctx [] req).1, (nextRun true h ctx [] req).2) := by
+  induction n with
+  | zero => simp
+  | succ n ih =>
+    rw [List.replicate_succ, nextRun]
+    simp only [if_true, spyMw, ih, List.replicate_succ, List.cons_append]
+
+/-- Without the forwarding (what a rebuilt `Next::new(rest, handler)` does) the context is gone
+after the first hop: the fact is needed. -/
+theorem nextRun_spies_dropped {κ ρ} (h : Handler κ (List (Option κ) × ρ)) (c : κ) (n : Nat) (req : Msg) :
+    nextRun false h (some c) (List.replicate (n + 1) spyMw) req =
+      (some c :: List.replicate n none ++ (h.handle req).1, (h.handle req).2) := by
+  have key : ∀ n, nextRun false h none (List.replicate n spyMw) req =
+      (List.replicate n none ++ (h.handle req).1, (h.handle req).2) := by
+    intro n
+    induction n with
+    | zero => simp [nextRun]
+    | succ n ih =>
+      rw [List.replicate_succ, nextRun]
+      simp only [ite_self, spyMw, ih]
+      simp [List.replicate_succ]
+  rw [List.replicate_succ, nextRun]
+  simp only [spyMw, Bool.false_eq_true, if_false, key n, List.cons_append]
 
 /-! ## owned / borrowed twins -/
 
